@@ -15,7 +15,6 @@ import (
 	"fmt"
 	"reflect"
 	"runtime"
-	"sort"
 	"strconv"
 	"strings"
 	"sync"
@@ -75,6 +74,23 @@ type Exec struct {
 	MaxSteps   int
 	Horizon    time.Duration
 	Leaked     []string
+	MarkIdx    int // choices before this index are not branched on (see Mark)
+}
+
+// Mark declares that the interesting phase of the scenario starts now: the
+// explorer only explores alternatives of choice points from here on (the
+// canonical schedule is kept for the warm-up before it).
+func Mark() {
+	x := cur.Load()
+	if x == nil {
+		return
+	}
+	x.mu.Lock()
+	if x.MarkIdx == 0 {
+		x.MarkIdx = len(x.Trace)
+	}
+	x.mu.Unlock()
+	Obs("mark", "")
 }
 
 var cur atomic.Pointer[Exec]
@@ -249,15 +265,6 @@ func (x *Exec) Finish() { x.finished.Store(true) }
 
 // Finished reports whether Finish was called.
 func (x *Exec) Finished() bool { return x.finished.Load() }
-
-func lessPath(a, b []int) bool {
-	for i := 0; i < len(a) && i < len(b); i++ {
-		if a[i] != b[i] {
-			return a[i] < b[i]
-		}
-	}
-	return len(a) < len(b)
-}
 
 // choose consumes one choice (from the prefix, else 0).
 func (x *Exec) choose(kind, label string, n int, alts []string) int {
@@ -497,6 +504,12 @@ func Sleep(d time.Duration) {
 	}
 }
 
+// parkedList returns the parked goroutines in canonical order: the goroutine
+// that ran last first (no preemption by default), then by position in the
+// persistent priority queue x.all. A non-default scheduling choice k "delays"
+// the first k candidates: they move to the back of the queue and stay there
+// (delay bounding, Emmi/Qadeer/Rakamaric), so that "this goroutine is held up
+// while everybody else runs to completion" costs one deviation, not one per step.
 func (x *Exec) parkedList() []*G {
 	x.mu.Lock()
 	defer x.mu.Unlock()
@@ -506,17 +519,28 @@ func (x *Exec) parkedList() []*G {
 			ps = append(ps, g)
 		}
 	}
-	sort.SliceStable(ps, func(i, j int) bool {
-		// The goroutine that ran last comes first if parked again.
-		if ps[i] == x.lastRan {
-			return true
+	for i, g := range ps {
+		if g == x.lastRan && i > 0 {
+			copy(ps[1:i+1], ps[0:i])
+			ps[0] = g
+			break
 		}
-		if ps[j] == x.lastRan {
-			return false
-		}
-		return lessPath(ps[i].path, ps[j].path)
-	})
+	}
 	return ps
+}
+
+// delay moves gs to the back of the priority queue.
+func (x *Exec) delay(gs []*G) {
+	x.mu.Lock()
+	defer x.mu.Unlock()
+	for _, g := range gs {
+		for i, h := range x.all {
+			if h == g {
+				x.all = append(append(x.all[:i:i], x.all[i+1:]...), g)
+				break
+			}
+		}
+	}
 }
 
 func (x *Exec) live() int {
